@@ -10,10 +10,12 @@
 // (duplicate indices), and because heap and result list share one array of dim ints ("last = nonz + thedim; *(--last) = r") the list
 // runs over the front of the caller's index array (heap-buffer-overflow, 4 bytes before x.idx).
 //
-// Proposed fix: never rely on "value == 0" for queue membership in exact arithmetic -- keep a per-index flag (bit/char array of size
-// dim in the class, set on enqueue, cleared on dequeue), and test the flag instead of "y == 0" before enQueueMaxRat/enQueueMinRat
-// in solveLleft, solveUleft, vSolveUright*, solveLleftForest and vSolveLright*.  Minimal mitigation for solveLleft alone: skip an
-// index equal to the previously dequeued one ("if(i == prev) continue; prev = i;").
+// Proposed fix: never rely on "value == 0" for queue membership in exact arithmetic.  Validated in a scratch copy: in solveLleft, before
+// "enQueueMaxRat(nonz, &rn, rperm[m])", test whether rperm[m] is already in the heap (linear scan of nonz[0..rn), or better a per-index
+// flag array of size dim that is set on enqueue and cleared on dequeue) and enqueue only if it is not; with that change this program
+// prints the exact row and the index set "2 4 3 1 0".  The same membership test belongs in solveUleft, vSolveUright*, solveLleftForest
+// and vSolveLright* of CLUFactorRational.  (Merely skipping an index that is dequeued twice in a row is NOT enough: heap and result list
+// have already collided in the shared array by then.)
 //
 // Build:  B=/verif/.cache/build/<srchash>; g++ -std=gnu++14 -O1 -g -DNDEBUG -I/repo/src -I$B/inc \
 //         /verif/findings/C11_rational_sparse_solveleft.cpp $B/opt.*/lib/{spxout,spxdefines,usertimer,wallclocktimer,idxset,didxset,spxid,nameset,mpsinput,spxgithash}.o \
